@@ -52,7 +52,7 @@ Next == \/ /\ st.lvl = 0
 Sound1 == st.lvl = 1 =>
     \A op \in OPS : \A v \in Dom(st.t) : \A p \in Dom(st.t) : SoundV(st.t, st.o, op, Stat(st.mn, st.mx), v, p)
 SoundSets == (st.lvl = 1 /\ SetData) =>
-    \A op \in OPS : \A d \in Seqs2(Dom(st.t)) : \A p \in Dom(st.t) : Sound(st.t, st.o, op, Stat(st.mn, st.mx), d, p)
+    \A op \in OPS : \A d \in Seqs2(DomS(st.t)) : \A p \in Dom(st.t) : Sound(st.t, st.o, op, Stat(st.mn, st.mx), d, p)
 \* one-sided and absent statistics never prune
 SoundAbsent == st.lvl = 1 =>
     \A op \in OPS : \A p \in Dom(st.t) :
